@@ -84,6 +84,10 @@ func runC12(r *core.Run) {
 		{"dt-group", "SET @@DATETIME_FORMAT TO '[\"%d/%m/%Y\", \"%m/%d/%Y\"]'; SELECT d, COUNT(*) AS n, MIN(id) AS i FROM t GROUP BY d;"},
 		// arguments of analytic functions that refer to columns (the default of LAG / LEAD), several partitions per worker
 		{"analytic-colarg", "SELECT id, k, LAG(a, 1, id) OVER (PARTITION BY k, b ORDER BY id) AS l, LEAD(id, 1, a) OVER (PARTITION BY k, b ORDER BY id) AS ld, LAG(b, 2, b) OVER (PARTITION BY k ORDER BY id) AS lb FROM t;"},
+		// a lateral sub-query is evaluated for every left record by the worker that has the record
+		{"lateral-cross", "SELECT t.id, t.k, s.uid FROM t CROSS JOIN LATERAL (SELECT u.id AS uid FROM u WHERE u.k = t.k) s;"},
+		{"lateral-left", "SELECT t.id, s.c, s.m FROM t LEFT JOIN LATERAL (SELECT COUNT(*) AS c, MAX(u.id) AS m FROM u WHERE u.a = t.a) s ON TRUE;"},
+		{"correlated", "SELECT id, (SELECT COUNT(*) FROM u WHERE u.k = t.k) AS c, EXISTS (SELECT 1 FROM u WHERE u.a = t.a) AS e FROM t;"},
 		{"subquery", "SELECT id FROM t WHERE k IN (SELECT k FROM u WHERE a > 0);"},
 		{"insert-select", "CREATE TABLE `w.csv` (id, k, n); INSERT INTO `w.csv` SELECT t.id, t.k, u.id FROM t JOIN u ON t.k = u.k; COMMIT;"},
 		{"update", "UPDATE t SET a = a + 1 WHERE k = 1; DELETE FROM t WHERE b IS NULL; COMMIT;"},
